@@ -48,7 +48,7 @@ def strategy(tier, phase):
     return st.fixed_dictionaries(
         # safe=True always: the op variant of the C01 known finding (a graph input/initializer accepted as
         # node output) produces states that already violate C01; atomicity is judged on consistent states.
-        {"setup": st.integers(0, 1), "safe": st.just(True), "ops": st.lists(opst, min_size=1, max_size=max_ops)}
+        {"setup": st.integers(0, 1), "safe": st.just(True), "ops": st.sampled_from([2, 4, 8, 14, 24, max_ops]).flatmap(lambda n: st.lists(opst, min_size=max(1, n // 2), max_size=n))}
     )
 
 
